@@ -15,6 +15,9 @@
               "pictures": [[sheet index, image key], ...]   embed images[key] as picture shapes: BLIPs in the globals
                                       MSODRAWINGGROUP record (+CONTINUE every 8224 bytes), one MSODRAWING + OBJ per picture
                                       in the sheet (spreadsheet cells cannot reference images in the ADM, hence an option)
+              "comments_at": [[sheet index, row, col, text], ...]   cell comments: a text-box shape per comment (MSODRAWING, OBJ of
+                                      type Note, MSODRAWING client text box, TXO + 2 CONTINUE) followed by the NOTE records, and the
+                                      globals MSODRAWINGGROUP; not together with "pictures" (one drawing per sheet)
               "stream_name": "Workbook" (default) | "Book"
               "cfb": {...}            options passed through to cfb.cfb
     Cell mapping: s -> LABELSST, i/f -> NUMBER (RK optional), b/err -> BOOLERR, d/dt/tm/dur -> NUMBER with a date XF
@@ -487,7 +490,46 @@ def _drawing_group(blips: list, per_sheet: list) -> bytes:
     bstore = box(0xF001, [_cfb.fbse(bt, uid, len(r), 0, r, refs) for r, bt, uid, refs in blips], inst=len(blips))
     opt = oa(3, 3, 0xF00B, struct.pack("<HIHIHI", 0x00BF, 0x00080008, 0x0181, 0x08000041, 0x01C0, 0x08000040))
     colors = oa(0, 4, 0xF11E, struct.pack("<IIII", 0x0800000D, 0x0800000C, 0x08000017, 0x100000F7))
-    return _split_continue(0x00EB, box(0xF000, [fdgg, bstore, opt, colors]))
+    return _split_continue(0x00EB, box(0xF000, [fdgg] + ([bstore] if blips else []) + [opt, colors]))
+
+
+def _sheet_notes(dgid: int, notes: list) -> bytes:
+    """notes = [(row, col, text)]: per comment MSODRAWING (text-box shape) + OBJ (Note) + MSODRAWING (client text box) + TXO +
+    CONTINUE (text) + CONTINUE (formatting runs); then one NOTE record per comment ([MS-XLS] 2.4.179, 2.4.181, 2.4.329)"""
+    oa = _cfb.oa_rec
+    base = dgid << 10
+    tb = oa(0, 0, 0xF00D, b"")
+    shapes = []
+    for i, (r, c, text) in enumerate(notes):
+        body = (oa(2, 202, 0xF00A, struct.pack("<II", base + 1 + i, 0x0A00)) +
+                oa(3, 4, 0xF00B, struct.pack("<HIHIHIHI", 0x0080, 0, 0x00BF, 0x00080008, 0x0181, 0x08000050, 0x03BF, 0x00020002)) +
+                oa(0, 0, 0xF010, struct.pack("<HHHHHHHHH", 3, min(c + 1, 255), 0x40, r, 0x20, min(c + 3, 255), 0x40, min(r + 4, 65535), 0x20)) +
+                oa(0, 0, 0xF011, b""))
+        shapes.append(struct.pack("<HHI", 0x000F, 0xF004, len(body) + len(tb)) + body)
+    group = oa(0xF, 0, 0xF004, oa(1, 0, 0xF009, b"\0" * 16) + oa(2, 0, 0xF00A, struct.pack("<II", base, 0x0005)))
+    spgr_len = len(group) + sum(len(x) + len(tb) for x in shapes)
+    fdg = oa(0, dgid, 0xF008, struct.pack("<II", len(notes) + 1, base + len(notes)))
+    head = (struct.pack("<HHI", 0x000F, 0xF002, len(fdg) + 8 + spgr_len) + fdg + struct.pack("<HHI", 0x000F, 0xF003, spgr_len) + group)
+    out = []
+    for i, ((r, c, text), sp) in enumerate(zip(notes, shapes)):
+        if not text or len(text) > 4000:
+            raise NotImplementedError("comment text of 1..4000 characters")
+        try:
+            chars = b"\0" + text.encode("latin-1")
+        except UnicodeEncodeError:
+            chars = b"\1" + text.encode("utf-16-le")
+            if len(text.encode("utf-16-le")) != 2 * len(text):
+                raise NotImplementedError("non-BMP characters in a comment")
+        out.append(rec(0x00EC, (head if i == 0 else b"") + sp))
+        out.append(rec(0x005D, struct.pack("<HHHHH", 0x0015, 0x0012, 0x0019, i + 1, 0x4011) + b"\0" * 12 +          # ftCmo: note
+                       struct.pack("<HH", 0x000D, 0x0016) + b"\0" * 22 + struct.pack("<HH", 0, 0)))                 # ftNts, ftEnd
+        out.append(rec(0x00EC, tb))
+        out.append(rec(0x01B6, struct.pack("<HH6xHH4x", 0x0212, 0, len(text), 16)))                                   # TXO
+        out.append(rec(0x003C, chars))
+        out.append(rec(0x003C, struct.pack("<HH4x", 0, 0) + struct.pack("<HH4x", len(text), 0)))
+    for i, (r, c, text) in enumerate(notes):
+        out.append(rec(0x001C, struct.pack("<HHHH", r, c, 0, i + 1) + ustr("verif") + b"\0"))                        # NOTE
+    return b"".join(out)
 
 
 def _sheet_drawing(dgid: int, pibs: list) -> bytes:
@@ -552,6 +594,17 @@ def workbook_stream(doc, opts: dict | None = None, images: dict | None = None) -
         blips[index[key]][3] += 1
         by_sheet.setdefault(si, []).append(index[key] + 1)
     drawings = {si: _sheet_drawing(n + 1, by_sheet[si]) for n, si in enumerate(sorted(by_sheet))}
+    notes_by_sheet = {}
+    for si, r, c, text in opts.get("comments_at") or []:
+        if blips:
+            raise NotImplementedError("comments_at together with pictures")
+        if not 0 <= si < len(sheets) or not (0 <= r < MAX_ROWS and 0 <= c < MAX_COLS):
+            raise ValueError("comments_at: no such sheet / cell %r" % ((si, r, c),))
+        if any((r, c) == (r2, c2) for r2, c2, _ in notes_by_sheet.get(si, [])):
+            raise ValueError("comments_at: a cell has one comment")
+        notes_by_sheet.setdefault(si, []).append((r, c, text))
+    for n, si in enumerate(sorted(notes_by_sheet)):
+        drawings[si] = _sheet_notes(n + 1, sorted(notes_by_sheet[si]))
     streams = [_sheet_stream(sh[2], sst, counter, opts, meta, i == 0, drawings.get(i, b"")) for i, sh in enumerate(sheets)]
     sst_bytes, positions = sst_records(list(sst), counter[0])
     g = [[r] for r in _globals_head(len(sheets), datemode)]          # one-element lists so records can be patched in place
@@ -560,6 +613,8 @@ def workbook_stream(doc, opts: dict | None = None, images: dict | None = None) -
     g += bs + [[rec(0x008C, struct.pack("<HH", 1, 1))]]                                       # BOUNDSHEETs, COUNTRY
     if blips:
         g.append([_drawing_group(blips, [len(by_sheet[si]) for si in sorted(by_sheet)])])     # MSODRAWINGGROUP (+CONTINUE)
+    elif notes_by_sheet:
+        g.append([_drawing_group([], [len(notes_by_sheet[si]) for si in sorted(notes_by_sheet)])])
     g += [sst_ref, ext_ref, [rec(0x000A)]]                                                    # SST, EXTSST, EOF
     k = opts.get("filepass_at")
     if k is not None:
